@@ -1,7 +1,7 @@
 """C01 — tape round trip: create, then list/extract, returns every file intact"""
 import os
 
-from framework import CaseResult, text_points, points_text
+from framework import scale, CaseResult, text_points, points_text
 from props.tapecommon import (CaseDir, TAPE, encoded_size, gen_content, gen_source_path, materialize, model_outcome,
                               real_path_of, run_tool, status_class)
 
@@ -35,7 +35,7 @@ def gen_case(rng, fit=True):
 
 
 def gen_cases(rng, tier):
-    n = 250 if tier == "quick" else 5000
+    n = scale(tier, 250, 5000)
     cases = [gen_case(rng) for _ in range(n)]
     # the exact frontier on one file: 19809 bytes -> 21503 encoded (accepted)
     cases.append({"sources": [{"arg": "big.bin", "content": {"rand": 7, "len": 19809}}], "verbose": False, "archive": "t.k7"})
